@@ -30,6 +30,8 @@ def call_builtin(it, ext: External, args, kwargs, node):
 
 
 def _len(it, a, kw, node):
+    if isinstance(a[0], dict):
+        return Term("dict_len", (it.shared_name(a[0]),), "int")
     return t_len(a[0]) if not isinstance(a[0], I_SymSeq()) else a[0].length
 
 
@@ -536,6 +538,11 @@ def call_method(it, name, obj, args, kwargs):
                 return i
         it.raise_exc("ValueError", "not in tuple")
     if tname == "dict":
+        if meth in ("clear", "update", "setdefault", "pop", "popitem") :
+            it.emit("shared_store", target=it.shared_name(obj), key=meth)
+            if meth in ("clear", "update"):
+                return None
+            return Term("dict_get", (it.shared_name(obj), meth), "any")
         if meth == "keys":
             return list(obj.keys())
         if meth == "values":
